@@ -142,6 +142,12 @@ impl LoopRange {
         self.0
     }
 
+    /// Verification hook: the pair (start, end) of this range, end = None if infinite
+    #[cfg(aws_smt_strings_verif)]
+    pub fn verif_bounds(&self) -> (u32, Option<u32>) {
+        (self.0, self.1)
+    }
+
     /// End of the range
     ///
     /// # Panics
